@@ -124,6 +124,16 @@ def grid_case(ctx, idx, rng):
     check_eigh(ctx, A, v, m, kd_use if not amb else 10**9)
     check_expm(ctx, A, v, dt, m, kd_use, hermitian=True)
     check_expm(ctx, A, v, dt, m, kd_use, hermitian=False)
+    if idx % 4 == 0:
+        # history: the same vector / matrix objects changed in place and used again
+        v *= -3.0
+        A *= 0.5
+        res2 = kr.krylov_residuals(A, v, m + 1)
+        kd2 = kr.krylov_dim(res2)
+        if any(1e-8 <= r <= 1e-5 for r in res2[:m]):
+            kd2 = 10**9
+        check_eigh(ctx, A, v, m, kd2)
+        check_expm(ctx, A, v, dt, m, kd2, hermitian=True)
     # non-normal matrix for the general branch
     G = A + (rng.normal(size=(n, n)) + (1j * rng.normal(size=(n, n)) if cplx else 0)) * 0.4
     vg = rng.normal(size=n) + (1j * rng.normal(size=n) if cplx else 0)
